@@ -655,7 +655,10 @@ def problems_of(case, out):
             cr = {json.dumps(k): decs(x) for k, x in r["content"]}
             same = sorted(co) == sorted(cr) and all(leq(co[k], cr[k]) for k in co)
         if not same:
-            pr.append(("values_orders_differ", f"feature {f['name']}: {o} vs {r}"))
+            pr.append(("values_orders_differ",
+                       f"feature {f['name']}: list {ko!r} -> {kr!r}; content "
+                       f"{[(dec(k), decs(x)) for k, x in o['content']]!r} -> "
+                       f"{[(dec(k), decs(x)) for k, x in r['content']]!r}"))
     if not out["vo_text_same"]:
         pr.append(("second_dump_values_orders_differ", ""))
     if out["meta_diff"]:
@@ -676,6 +679,14 @@ def canonical_o6_case():
 
     rng = random.Random(6)
     return gen_case(rng, "BinaryCarver", {"n": 40, "nfeat": 1, "kind": "quant", "qflavour": "halves"})
+
+
+def canonical_sentinel_case():
+    """smallest object with a category literally named "numpy.inf": one qualitative feature"""
+    import random
+
+    rng = random.Random(66)
+    return gen_case(rng, "QualitativeDiscretizer", {"n": 40, "nfeat": 1, "kind": "cat", "cflavour": "sentinel"})
 
 
 class C06(Prop):
@@ -803,6 +814,11 @@ class C06(Prop):
             c = canonical_o6_case()
             o = fails_same(c)
             if o is not None:
+                return c, o, self.oracle(c, o)[1]
+        if has_sentinel(case) and "category_named_numpy_inf" in self.finding_signatures(case, out, msg):
+            c = canonical_sentinel_case()
+            o = self.run_impl(c)
+            if "feats" in o and "category_named_numpy_inf" in self.finding_signatures(c, o, ""):
                 return c, o, self.oracle(c, o)[1]
         best = (case, out, msg)
         cur = case
